@@ -19,6 +19,8 @@
 (*         (CertificateVerify binds the certificate key) is an assumption. *)
 (* Part S  swarm: Dial(P) over transports that may return a connection     *)
 (*         authenticated as somebody else (swarm_dial.go dialAddr/dialPeer)*)
+(* Part U  the expected-peer rule crossed with ROLE at the upgrader and at   *)
+(*         the TCP transport's Dial (server role of a simultaneous connect) *)
 (* Part H  the QUIC transport's own Dial contract: plain dial and the      *)
 (*         hole-punch path where an ACCEPTED connection completes the dial *)
 (***************************************************************************)
@@ -563,4 +565,37 @@ NextH == PlainH \/ StartH \/ ArriveH \/ CancelH
 DialAuthH == st.part = "H" => (st.res \in {"-", "P", "err"} /\ Len(st.inbound) + (IF st.res = "P" /\ st.path = "punch" THEN 1 ELSE 0) = Cardinality(st.arrived))
 ReachPunchedH == ~(st.part = "H" /\ st.path = "punch" /\ st.res = "P" /\ Len(st.inbound) > 0)
 ReachRefusedH == ~(st.part = "H" /\ st.path = "punch" /\ st.res = "err" /\ "Q" \in {st.inbound[i] : i \in 1..Len(st.inbound)})
+(***************************************************************************)
+(*                                PART U                                   *)
+(***************************************************************************)
+\* The expected-peer rule crossed with ROLE above the security transports: the upgrader
+\* (p2p/net/upgrader upgrade / setupSecurity) hands the peer it was given to SecureOutbound (client role)
+\* or SecureInbound (server role).  A listener accepts with no peer named; but the TCP and websocket
+\* DIALERS take the server role too - simultaneous connect, p2p/transport/tcp dialWithScope maps
+\* isClient = false to DirInbound - and then the server role names the peer it dialled.
+\*   via    "upgrade": Upgrade(ctx, t, conn, dir, named, scope) called directly
+\*          "tcp":     the real TCP transport's Dial(ctx [with simultaneous connect], addr, P)
+\*   sec    Noise | TLS;  mux  early (inside the handshake) | mss (multistream afterwards)
+\*   role   client (DirOutbound) | server (DirInbound);  named  "P" | "" (nobody)
+\*   ans    who answers in the complementary role: the host holding P's key, or another honest host M
+InitU ==
+  \E via \in {"upgrade", "tcp"}, sc \in {"noise", "tls"}, mux \in {"early", "mss"}, role \in {"client", "server"},
+     named \in {"P", NoID}, ans \in {"P", "M"} :
+    /\ via = "tcp" => named = "P"
+    /\ st = [part |-> "U", via |-> via, sec |-> sc, mux |-> mux, role |-> role, named |-> named, ans |-> ans,
+             done |-> FALSE, ok |-> FALSE, rem |-> NoID]
+    /\ op = [name |-> "startU"]
+UpgradeU ==
+  /\ ~st.done
+  /\ LET v == IF st.role = "client" /\ st.named = NoID THEN [ok |-> FALSE, why |-> "nilpeer"]     \* ErrNilPeer
+              ELSE IF st.named = NoID THEN [ok |-> TRUE, why |-> "-"]                              \* a listener's accept
+              ELSE IF st.ans = st.named \/ (Variant = "servernocheck" /\ st.role = "server") THEN [ok |-> TRUE, why |-> "-"]
+              ELSE [ok |-> FALSE, why |-> "mismatch"]
+     IN /\ st' = [st EXCEPT !.done = TRUE, !.ok = v.ok, !.rem = IF v.ok THEN st.ans ELSE NoID]
+        /\ op' = [name |-> "upgrade", ok |-> v.ok, rem |-> IF v.ok THEN st.ans ELSE NoID, why |-> v.why]
+NextU == UpgradeU
+\* whenever a peer was named, in ANY role, a connection is returned only if it is that peer's; and the
+\* reported peer is always the one that answered
+ExpectU == (st.part = "U" /\ st.done /\ st.ok) => (st.rem = st.ans /\ (st.named # NoID => st.rem = st.named))
+ReachServerNamedU == ~(st.part = "U" /\ st.done /\ st.ok /\ st.role = "server" /\ st.named = "P")
 =============================================================================
